@@ -70,6 +70,7 @@ TOL_REL = 1e-8
 TOL_MA = 4e-9                 # log10 units (= 1e-8 relative in the activity product)
 CONV_TOL = 1e-12
 TOL_BW_GRAHAME = 1e-2
+SITE_ABS_TOL = 1e-15          # KNOBS -tolerance (default): absolute acceptance of a mole-balance residual, mol
 TOL_G = CONV_TOL            # the diffuse-layer composition g is iterated to |dg| <= convergence_tolerance
 # sorbing elements entered in SOLUTION (label -> formal charge used only for choosing the charge-balancing ion)
 CATIONS = ["Ca", "Mg", "Sr", "Ba", "Zn", "Cd", "Cu", "Pb", "Ni", "Co", "Be"]
@@ -937,8 +938,16 @@ def check_row(case, M, v, dls, state, kth, stats, where):
             cmp("Gouy-Chapman", sig[0], edl.gouy_chapman_sigma(psi[n][0], MU, EPS, TK), extra=dl_abs * edl.F / area)
         elif M.cd:
             c1, c2 = su["cap"]
-            cmp("sigma0 = C1 (psi0 - psi1)", sig[0], c1 * (psi[n][0] - psi[n][1]))
-            cmp("sigma0 + sigma1 = C2 (psi1 - psi2)", sig[0] + sig[1], c2 * (psi[n][1] - psi[n][2]))
+            # plane 0 carries the charge of the master species of EVERY site: the solver books it with the defined site totals, the
+            # oracle with the species it finds, so the solver's site-balance criterion (relative convergence_tolerance, or the
+            # absolute KNOBS -tolerance, default 1e-15 mol) enters sigma0 as F |z_master| dn / area
+            slack = 0.0
+            for j, s_ in enumerate(su["sites"]):
+                tsite = defined_sites_area(case, su, j, v, state)[0]
+                slack += abs(M.sp_table[M.master_species[s_["site"]]].charge) * 10 * (CONV_TOL * tsite + SITE_ABS_TOL)
+            slack *= edl.F / area
+            cmp("sigma0 = C1 (psi0 - psi1)", sig[0], c1 * (psi[n][0] - psi[n][1]), extra=slack)
+            cmp("sigma0 + sigma1 = C2 (psi1 - psi2)", sig[0] + sig[1], c2 * (psi[n][1] - psi[n][2]), extra=slack)
             if not dl:
                 aq_ions = aqueous_ions(M, v)
                 tot = sig[0] + sig[1] + sig[2]
@@ -960,7 +969,7 @@ def check_row(case, M, v, dls, state, kth, stats, where):
                     stats["cp"] += 1
                     m = max(abs(tot), abs(lo), abs(hi))
                     # (+ the resolution of the expression itself near zero potential, DESIGN 4.3)
-                    tol = TOL_REL * m + floor + edl.grahame_rounding_floor(aq_ions, EPS, TK)
+                    tol = TOL_REL * m + floor + slack + edl.grahame_rounding_floor(aq_ions, EPS, TK)
                     if m > 0:
                         stats["worst_cp"] = max(stats["worst_cp"], max(0.0, max(lo - tot, tot - hi) - (tol - TOL_REL * m)) / m)
                     if tot < lo - tol or tot > hi + tol:
